@@ -199,7 +199,7 @@ Theorem mon03_clauses23_silent c cfg bs st0 now e0 es x0 x1 cfgsx objs ops m0 u0
   forall z, In z (m_viol (fold_left (mon_entry cfgsx objs ops) (e0 :: es) m0)) -> In z (m_viol m0) \/ no23 z.
 Proof.
   intros Hr He Hf C z Hin. cbn [fold_left u_all] in *.
-  destruct (replay_restore_init _ _ _ _ _ _ _ Hr) as [T0 [alloc [oldest [init Hx0]]]].
+  destruct (replay_restore_init _ _ _ _ _ _ _ Hr) as [T0 [_ [alloc [oldest [init Hx0]]]]].
   pose proof (G_init alloc oldest init now) as Hg0. rewrite <- Hx0 in Hg0.
   pose proof (J_restore_entry cfgsx objs ops m0 e0 (x_sys x0) g0 T0 Hf) as Hj0.
   apply andb_prop in C. destruct C as [_ C]. rewrite (u_step_restore _ _ T0) in C.
